@@ -61,7 +61,8 @@ ASSUME15 = [
     "requests are what the protobuf wire format can carry (every case passes through proto.Marshal/Unmarshal); text fields are ASCII",
     "a fixed-width field is representable only by a value of exactly that many bytes; rejection is always an allowed outcome",
     "two guardian keys are the same guardian iff they decode to the same 20 bytes (whatever their spelling); a set naming a guardian twice must be rejected",
-    "module names are compared up to leading NUL bytes (left-padded wire field); cross-kind injectivity assumes the token bridge's module name",
+    "a module name is the request's byte string as given (surrounding whitespace / NULs are bytes of the name); only the injectivity "
+    "lemma identifies names up to leading NUL bytes (left-padded wire field); cross-kind injectivity assumes the token bridge's module name",
     "Keccak-256 is trusted; the harness's digest is recomputed by a pure-python Keccak from the logged fields (payloads up to 64 KiB)",
     "contract side by source extraction of governance.ral and token_bridge_governance.ral, not by executing the contracts",
 ]
@@ -371,6 +372,11 @@ def run15(tier, replay):
             accepted[q["kind"]] += 1
         shape = tuple(sorted((k, _shape(v)) for k, v in q.items() if k != "kind"))
         classes.add((q["kind"], oc, shape))
+    modc = Counter()
+    for ln in lines:
+        mcl = fg.gov_module_class(ln["a"]["req"])
+        if mcl:
+            modc["%s:%s:%s" % (ln["a"]["req"]["kind"], mcl["cls"], "+".join(sorted({c["class"] for c in ln["s"]["calls"]})))] += 1
     # multi-message requests: relation of each message's payload length to the previous message of the same request
     multi = Counter()
     later_reads = 0
@@ -395,6 +401,10 @@ def run15(tier, replay):
         miss = [k for k in need if not multi[k]]
         if miss or not later_reads:
             problems.append("vacuous run: multi-message classes %s never accepted / %d later re-reads" % (miss, later_reads))
+        for k in ("bridge_register_chain", "bridge_contract_upgrade"):
+            for cls in ("gt32/ws-trim-le32", "le32/ws-trim-le32", "gt32/plain", "le32/plain"):
+                if not any(key.startswith("%s:%s:" % (k, cls)) for key in modc):
+                    problems.append("vacuous run: no %s request with a module name of class %s" % (k, cls))
         none_acc = [k for k in fg.GOV_KINDS if not accepted[k]]
         if none_acc:
             problems.append("vacuous run: no request of kind %s was accepted on every path, the exact-payload half was not exercised "
@@ -415,6 +425,7 @@ def run15(tier, replay):
         "accepted_per_kind": dict(accepted),
         "ralph": {"parsers": {f: sorted(extracted[f]["parsers"]) for f in ex.FILES}, "differences": diffs,
                   "upgrade_blob_from": extracted.get("upgrade_blob_from")},
+        "module_name_classes": dict(sorted(modc.items())),
         "multi_message_requests": dict(multi), "vaas_read_again_after_later_constructions": later_reads,
         "digests_rechecked_in_python": dig_checked,
         "negative_selftest": {str(k): v for k, v in expect.items()},
